@@ -12,7 +12,7 @@
 
 Known defects of the pinned tree whose triggers the generator avoids (witnesses in
 corpus/C20/finding_*.json are replayed on every run):
-  D30 oneline_doc     set_doc on a one-line body without docstring          (trigger: doc edit, one-line body, no docstring)
+  (D30 oneline_doc, set_doc on a one-line body without docstring, is repaired in /repo and generated again)
   D31 doc_quote       documentation ending in '"', containing '\"\"\"' or a backslash (trigger: not safe_doc(d))
   D32 splitlines_ff   form feed etc. inside the text                         (trigger: any of \\r \\v \\f \\x1c-\\x1e \\x85 \\u2028 \\u2029)
   D33 dedent_literal  multi-line string literal in an indented definition / with blank-only lines (trigger: such a literal)
@@ -166,9 +166,8 @@ def gen_ops(rng, has_doc, oneline, cur_name, stats, is_lambda=False):
                 if not G.safe_doc(d):
                     stats["filtered_D31_unsafe_doc"] += 1
                     continue
-                if oneline and not has_doc:
-                    stats["filtered_D30_oneline_doc"] += 1
-                    continue
+                if oneline and not has_doc:      # D30 is repaired in /repo: generated again
+                    stats["oneline_doc_edits_without_docstring"] = stats.get("oneline_doc_edits_without_docstring", 0) + 1
             ops.append({"op": "doc", "doc": d, "ins": (not is_lambda) and rng.random() < 0.2,
                         "via": rng.choice(["prop", "method"])})
             if ops[-1]["ins"]:
@@ -556,7 +555,7 @@ def corpus_cases():
 
 def run(tier, seed, rng):
     out = Outcome()
-    stats = {"filtered_D30_oneline_doc": 0, "filtered_D31_unsafe_doc": 0, "filtered_D32_linebreak_char": 0,
+    stats = {"filtered_D31_unsafe_doc": 0, "filtered_D32_linebreak_char": 0,
              "filtered_D33_literal_in_indented_text": 0, "filtered_D35_two_lambdas_on_a_line": 0}
     n = {"quick": 420, "thorough": 7000}[tier]
     cases = corpus_cases()
@@ -628,7 +627,7 @@ def run(tier, seed, rng):
     out.notes = [
         "the Python tokenizer / compiler are outside the theorems: token positions are inputs of the model; the harness compares the "
         "positions asttokens reports with the ones the structured text has by construction; behaviour (values) rests on (P)",
-        "generator avoids the triggers of D30 (doc edit on a one-line body without docstring), D31 (unsafe doc), D32 (CR/FF/... in text), "
+        "generator avoids the triggers of D31 (unsafe doc), D32 (CR/FF/... in text), "
         "D33 (multi-line literal in an indented text), D10 (decorator with is_cached on an existing cells); filtered counts in distribution.filtered",
         "non-ASCII characters occur in comments and string literals only; function bodies evaluate to ints so that values can be compared by repr",
         "about a quarter of the def texts hold a nested decorated definition (decorator defined earlier in the body, @property on an inner "
